@@ -33,6 +33,8 @@ public:
   int _col_number;
   int _last_line;
   bool _c_style;
+  // True if the comment follows other text on the line on which it begins.
+  bool _trailing;
   std::string _comment;
 };
 
